@@ -113,12 +113,12 @@ PLANS["C09"] = coll("C09", 400, 10000, ["nonboundary_index", "invalid_utf8_input
 _c15a = arena("C15", 40, 1000)
 PLANS["C15"] = coll("C15", 300, 8000, ["commit_mut", "commit_mut_rev", "mut_dropped_unfinalised", "mut_grew_other_chunk", "prepared_commit", "mut_helper", "prepared_commit_after_chunk_switch", "mut_collection_via_dyn", "collection_on_unallocated_arena"],
                     extra_quick=_c15a["quick"], extra_thorough=_c15a["thorough"][:4])
-PLANS["C16"] = coll("C16", 400, 10000, ["split", "merge_ok", "merge_rejected", "split_interior", "split_prefix", "split_suffix", "split_empty", "split_full", "into_flattened", "split_at_spare"])
+PLANS["C16"] = coll("C16", 400, 10000, ["split", "merge_ok", "merge_rejected", "split_interior", "split_prefix", "split_suffix", "split_empty", "split_full", "into_flattened", "split_at_spare", "into_flattened_mut"])
 
 PLANS["C17"] = dict(
     level="exploration",
     need=["pair:dyn", "pair:try_vs_panicking", "pair:inherent_vs_trait", "req:IterMutRev", "req:Reserve", "req:Raw", "req:TypedLayout", "req:CStrFmtMut", "req:SliceFillWith",
-          "req:VecSession", "req:MutVecSession", "req:CheckpointReset", "req:TryWith", "req:RawSession", "state:scope_left_later_chunks"],
+          "req:VecSession", "req:MutVecSession", "req:CheckpointReset", "req:TryWith", "req:RawSession", "req:PrepareCommit", "state:scope_left_later_chunks"],
     rule="evaluations = lock-step histories: two arenas in identical states (congruent chunk addresses through MonAlloc) execute each generated request through two different, randomly paired entry points "
          "(inherent Bump / BumpScope forwarders, trait impls on BumpScope, &Bump, &BumpScope, WithoutDealloc, WithoutShrink, dyn, each panicking and try_); non-trivial = at least one request returned a block; distinct by (configuration, request list)",
     quick=[("dbg", "lockstep", [], 16, ["--histories", "300"]), ("rel", "lockstep", [], 16, ["--histories", "900"]), ("miri", "lockstep", ["--ops", "40"], 8, ["--histories", "2"])],
